@@ -45,7 +45,29 @@ def fmp(m):
 
 
 def mk(a):
-    return MeshPatt(Perm(pseq(a[0])), pcells(a[1]))
+    """the pattern object under test, *after it has been used*: a few other queries are issued on
+    the same object first (point insertions in other directions, a shading-lemma query), so that
+    any state an object keeps between calls is exercised; results of the warm-up are discarded"""
+    m = MeshPatt(Perm(pseq(a[0])), pcells(a[1]))
+    n = len(m.pattern)
+    cells = []
+    if len(a) > 2:
+        try:
+            cells = [c for c in pcells(a[2]) if len(c) == 2][:2]
+        except Exception:
+            cells = []
+    cells.append((n, n))
+    for c in cells:
+        for d in (2, 0, 3, -1):
+            try:
+                m.add_point(c, d)
+            except Exception:
+                pass
+        try:
+            m.can_shade(c)
+        except Exception:
+            pass
+    return m
 
 
 def cell(s):
